@@ -61,7 +61,7 @@ def pollute(spec):
     run_once(p, 3)
 
 
-def run_once(spec, scramble):
+def run_once(spec, scramble, session=None):
     import warnings
     warnings.filterwarnings("ignore")
     np.seterr(all="ignore")
@@ -74,7 +74,10 @@ def run_once(spec, scramble):
         np.random.rand(scramble % 13)
         for _ in range(scramble % 5):
             pyr.random()
-    cfg, info = gen.build(spec)
+    cfg, info = gen.build(spec, session=session)
+    if session is not None:      # only the sprout-mechanism object is shared between the runs of a session (problem wrappers and stop conditions are built anew)
+        session.pop("gsc", None)
+        session.pop("gsc_key", None)
     try:
         with common.time_limit(common.RUN_LIMIT):
             tree = tree_mod.DemeTree(cfg)
@@ -121,6 +124,14 @@ def run_repro(ctx, n):
         a = run_once(spec, 12345 + s % 1000)
         b = run_once(spec, 999 + s % 777)
         inproc[s] = (spec, a, b)
+        # (c) the way a user script (and test_reproducibility) does it: the second run is given the very same sprout-mechanism object as the first
+        sess = {}
+        c1 = run_once(spec, 4321 + s % 999, session=sess)
+        c2 = run_once(spec, 77 + s % 555, session=sess)
+        if not (cut(a) or cut(c1) or cut(c2)) and not (a["digest"] == c1["digest"] == c2["digest"]):
+            viol.append({"key": "C14/shared-mechanism", "what": f"seed {s} (engines {[l['engine'] for l in spec['levels']]}, tree filters {[f['kind'] for f in spec['sprout'].get('tree_filters', [])]}): "
+                         f"two seeded runs of one configuration handed the same sprout-mechanism object built different trees ({c1['demes']} vs {c2['demes']} demes, "
+                         f"{c1['individuals']} vs {c2['individuals']} individuals; a fresh-mechanism run: {a['demes']} demes)", "seed": s, "spec": spec, "replay_fn": "repro"})
         if a["digest"] != b["digest"] and not (cut(a) or cut(b)):
             viol.append({"key": "C14/in-process", "what": f"seed {s} (engines {[l['engine'] for l in spec['levels']]}, random_seed={spec['random_seed']}): two runs in one process with different prior "
                          f"global RNG states built different trees ({a['demes']} vs {b['demes']} demes, {a['individuals']} vs {b['individuals']} individuals)", "seed": s, "spec": spec, "replay_fn": "repro"})
@@ -162,7 +173,10 @@ def run_repro(ctx, n):
 def replay_repro(ctx, data):
     spec = data["spec"]
     a, b = run_once(spec, 5), run_once(spec, 77)
-    return a["digest"] == b["digest"], f"seed {spec.get('seed')}: in-process digests {a['digest'][:10]} / {b['digest'][:10]}"
+    sess = {}
+    c1, c2 = run_once(spec, 6, session=sess), run_once(spec, 78, session=sess)
+    return a["digest"] == b["digest"] == c1["digest"] == c2["digest"], (f"seed {spec.get('seed')}: in-process digests {a['digest'][:10]} / {b['digest'][:10]}; "
+                                                                         f"sharing one sprout mechanism {c1['digest'][:10]} / {c2['digest'][:10]}")
 
 
 if __name__ == "__main__":
